@@ -561,8 +561,32 @@ impl<'a, 'ast> Visit<'ast> for Cx<'a> {
             let before = self.src[s..e].to_string();
             self.note("spec", s, &before, "closure header with requires/ensures from the template");
         } else {
-            for p in &c.inputs {
-                self.pat(p, false, &mut derefs);
+            for (pi, p) in c.inputs.iter().enumerate() {
+                let inner_pat = match p { syn::Pat::Type(t) => &*t.pat, other => other };
+                let is_simple = matches!(inner_pat, syn::Pat::Ident(i) if i.subpat.is_none()) || matches!(inner_pat, syn::Pat::Wild(_));
+                if is_simple {
+                    self.pat(p, false, &mut derefs);
+                    continue;
+                }
+                // N3: a destructuring closure parameter becomes a variable plus a `let` at the head of the body
+                let mut scratch = Cx { src: self.src, slot: self.slot, retarget: self.retarget, edits: vec![], log: vec![], seq: 0, err: None, loop_ord: 0, closure_ord: 0, base_line: self.base_line, loops_seen: vec![], closures_seen: vec![], let_counts: Default::default(), let_hints_used: vec![], arm_ord: 0, kind_ord: Default::default(), kloops_seen: vec![], loop_stack: vec![], if_ord: 0, if_stack: vec![] };
+                scratch.pat(inner_pat, false, &mut derefs);
+                let r = inner_pat.span().byte_range();
+                let mut es: Vec<&Edit> = scratch.edits.iter().collect();
+                es.sort_by_key(|e| (e.start, e.seq));
+                let mut txt = String::new();
+                let mut pos = r.start;
+                for e in es {
+                    if e.start < pos || e.end > r.end { continue; }
+                    txt.push_str(&self.src[pos..e.start]);
+                    txt.push_str(&e.text);
+                    pos = e.end;
+                }
+                txt.push_str(&self.src[pos..r.end]);
+                let before = self.src[r.clone()].to_string();
+                self.replace(r.clone(), format!("__p{}", pi));
+                derefs_prefix.push_str(&format!("let {} = __p{}; ", crate::one_line_pub(&txt), pi));
+                self.note("N3", r.start, &before, &format!("__p{} + let at the head of the closure body", pi));
             }
         }
         let lets = format!("{}{}", derefs_prefix, Cx::deref_lets(&derefs));
